@@ -28,6 +28,8 @@ def main():
             values=vals,
             value_nums={v.name: float(v.value) for v in Meta.values},
             designated=sorted(v.name for v in Meta.designated_values),
+            designated_repr=sorted(f'{type(v).__name__}.{v.name}' for v in Meta.designated_values),
+            values_class=Meta.values.__name__,
             unassigned=Meta.unassigned_value.name,
             modal=bool(Meta.modal),
             quantified=bool(Meta.quantified),
